@@ -11,6 +11,7 @@ import (
 	"github.com/mgtv-tech/redis-GunYu/pkg/rdb"
 	"github.com/mgtv-tech/redis-GunYu/pkg/redis/client"
 	"github.com/mgtv-tech/redis-GunYu/pkg/redis/client/common"
+	"github.com/mgtv-tech/redis-GunYu/pkg/redis/keyspec"
 	"github.com/mgtv-tech/redis-GunYu/pkg/util"
 )
 
@@ -35,6 +36,7 @@ type RdbReplay struct {
 
 func (rr *RdbReplay) Replay(e *rdb.BinEntry) (err error) {
 	var ttlms uint64
+	srcKey := e.Key
 	if rr.ReplaceHashTag {
 		e.Key = bytes.Replace(e.Key, []byte("{"), []byte(""), 1)
 		e.Key = bytes.Replace(e.Key, []byte("}"), []byte(""), 1)
@@ -98,7 +100,7 @@ EXPAND:
 			return nil
 		}
 
-		err = restoreBigRdbEntry(rr.Client, e)
+		err = restoreBigRdbEntry(rr.Client, e, srcKey)
 		if err != nil {
 			return err
 		}
@@ -168,7 +170,43 @@ func restoreOnce(cli client.Redis, e *rdb.BinEntry) (err error) {
 	return nil
 }
 
-func restoreBigRdbEntry(cli client.Redis, e *rdb.BinEntry) (err error) {
+// rewriteKeyArgs replaces the key arguments of an expanded command that carry
+// the snapshot's key by the key the entry is replayed to (replaceHashTag).
+func rewriteKeyArgs(cmd string, args []interface{}, srcKey []byte, dstKey []byte) []interface{} {
+	if len(srcKey) == 0 || bytes.Equal(srcKey, dstKey) {
+		return args
+	}
+	raw := make([][]byte, len(args))
+	for i, a := range args {
+		switch x := a.(type) {
+		case []byte:
+			raw[i] = x
+		case string:
+			raw[i] = []byte(x)
+		}
+	}
+	indexes, ok := keyspec.CommandKeyIndexes(cmd, raw)
+	if !ok {
+		return args
+	}
+	rewritten := args
+	cloned := false
+	for _, idx := range indexes {
+		if idx < 0 || idx >= len(raw) || !bytes.Equal(raw[idx], srcKey) {
+			continue
+		}
+		if !cloned {
+			rewritten = append([]interface{}(nil), args...)
+			cloned = true
+		}
+		rewritten[idx] = dstKey
+	}
+	return rewritten
+}
+
+// srcKey is the entry's key as the snapshot has it: the expanded commands
+// carry it, e.Key is the key they have to be replayed to.
+func restoreBigRdbEntry(cli client.Redis, e *rdb.BinEntry, srcKey []byte) (err error) {
 	defer util.Xrecover(&err, ErrRestoreRdb)
 
 	if e.ObjectParser == nil {
@@ -177,7 +215,7 @@ func restoreBigRdbEntry(cli client.Redis, e *rdb.BinEntry) (err error) {
 
 	count := 0
 	e.ObjectParser.ExecCmd(func(cmd string, args ...interface{}) error {
-		err = cli.Send(cmd, args...)
+		err = cli.Send(cmd, rewriteKeyArgs(cmd, args, srcKey, e.Key)...)
 		if err != nil {
 			return err
 		}
